@@ -99,6 +99,41 @@ pub fn patterns(space: &str, tier: &str, seed: u64) -> Vec<String> {
             push(p.to_string(), &mut out);
         }
     }
+    // commit / restore family: an atomic group (or a condition, or a negative look-ahead) that leaves several
+    // alternatives behind with capture slots written between them, then a continuation that can fail, then an
+    // alternative path that never enters those groups; and conditionals with groups in all three parts (numbering)
+    if ["c01", "c15", "c05", "c16", "c07"].contains(&space) {
+        let bodies = [
+            "(a)?(b)?\\1?", "(?:(a)|b(?!b))+", "(a)?(b)?", "(?:(a)|(b))+", "(a|ab)(c|bc)?", "(a)*?(b)*?", "(?:(a)|b)+?", "(a)??(b)??",
+            "(?:(a)|ab)(?:(b)|)", "(a)?(?:(b)|c)?(-)?",
+        ];
+        let tails = ["c", "\\1c", "(?(1)c|-)", "", "(?(2)c)", "\\b"];
+        let alts = ["ab", "[ab]+", "a", "(?s:.){2}", ""];
+        for b in bodies {
+            for t in tails {
+                for f in alts {
+                    push(format!("(?:(?>{}){}|{})", b, t, f), &mut out);
+                    push(format!("(?:(?({}){}|b)|{})", b, t, f), &mut out);
+                    push(format!("(?:(?!{}c){}|{})", b, t, f), &mut out);
+                    push(format!("(?:(?={}){}|{})", b, t, f), &mut out);
+                }
+            }
+        }
+        for c in ["a", "(a)", "(?=(a))", "1", "(?!(b))"] {
+            for y in ["(b)", "b(c)", "(?:(b)|(c))", ""] {
+                for n in ["(c)", "(a)(b)", "(?>(c))", ""] {
+                    for pre in ["", "(a)?", "^"] {
+                        for post in ["", "(-)?", "\\1?"] {
+                            if c == "1" && pre != "(a)?" {
+                                continue;
+                            }
+                            push(format!("{}(?({}){}|{}){}", pre, c, y, n, post), &mut out);
+                        }
+                    }
+                }
+            }
+        }
+    }
     // context x filler products
     let conds = g.conds;
     let ctxs = contexts(conds);
@@ -324,6 +359,33 @@ fn run_limits(s: &mut Session, p: &str, txts: &[String], limits: &[usize]) {
             let bs = boundaries(t);
             for &pos in bs.iter().take(2) {
                 let a = s.caps(&b, t, pos, false, l);
+                // every entry point runs under the same limit (C07 / C09): compare the outcome class
+                {
+                    let re = b.re.as_ref().unwrap();
+                    let class = |x: &str| if x.starts_with("m ") { "match" } else { x }.to_string();
+                    let mut others: Vec<(&str, String)> = Vec::new();
+                    let f = std::panic::catch_unwind(std::panic::AssertUnwindSafe(|| re.find_from_pos(t, pos)));
+                    others.push(("find_from_pos", match f { Err(_) => "panic".into(), Ok(Err(e)) => crate::wire::error_name(&e), Ok(Ok(None)) => "none".into(), Ok(Ok(Some(_))) => "match".into() }));
+                    let c = std::panic::catch_unwind(std::panic::AssertUnwindSafe(|| re.captures_from_pos(t, pos)));
+                    others.push(("captures_from_pos", match c { Err(_) => "panic".into(), Ok(Err(e)) => crate::wire::error_name(&e), Ok(Ok(None)) => "none".into(), Ok(Ok(Some(_))) => "match".into() }));
+                    if pos == 0 {
+                        let m = std::panic::catch_unwind(std::panic::AssertUnwindSafe(|| re.is_match(t)));
+                        others.push(("is_match", match m { Err(_) => "panic".into(), Ok(Err(e)) => crate::wire::error_name(&e), Ok(Ok(false)) => "none".into(), Ok(Ok(true)) => "match".into() }));
+                        let f0 = std::panic::catch_unwind(std::panic::AssertUnwindSafe(|| re.find(t)));
+                        others.push(("find", match f0 { Err(_) => "panic".into(), Ok(Err(e)) => crate::wire::error_name(&e), Ok(Ok(None)) => "none".into(), Ok(Ok(Some(_))) => "match".into() }));
+                    }
+                    for (name, got) in others {
+                        s.count("entry_point_limit_cases");
+                        if got != class(&a) {
+                            s.violation(
+                                "C07",
+                                "entry-points-differ-under-limit",
+                                &[("pattern", p.to_string()), ("text", t.clone()), ("pos", pos.to_string()), ("limit", l.to_string()),
+                                  ("detail", format!("{} gives {}, captures (hook) gives {}", name, got, class(&a)))],
+                            );
+                        }
+                    }
+                }
                 row.push((a, s.last_stats.1));
                 if li == 0 {
                     cases.push((t.clone(), pos));
